@@ -880,11 +880,32 @@ class BeartypeConf(object):
                 warning_cls_on_decorator_exception,
             )
 
-            # If this method has already instantiated a configuration with these
-            # parameters, return that configuration for consistency and
-            # efficiency.
-            if conf_args in _beartype_conf_args_to_conf:
-                return _beartype_conf_args_to_conf[conf_args]
+            # Previously instantiated configuration whose parameters compare
+            # equal to these parameters if any *OR* "None" otherwise.
+            conf_cached = _beartype_conf_args_to_conf.get(conf_args)
+
+            # If this method has already instantiated such a configuration...
+            if conf_cached is not None:
+                # For each passed parameter and the corresponding parameter of
+                # that configuration...
+                #
+                # Note that equal parameters are *NOT* necessarily of the same
+                # type. Notably, "1 == True", "0.0 == False", and integers
+                # compare equal to integer enumeration members. Since the
+                # parameters of that configuration have already been validated,
+                # passed parameters of differing types have yet to be validated
+                # and *MUST* thus be validated below rather than silently
+                # accepted depending on which configurations happen to have
+                # been previously instantiated.
+                for conf_arg, conf_arg_cached in zip(
+                    conf_args, conf_cached._conf_args):
+                    if conf_arg.__class__ is not conf_arg_cached.__class__:
+                        break
+                # If all passed parameters are of the same types as those of
+                # that configuration, return that configuration for consistency
+                # and efficiency.
+                else:
+                    return conf_cached
             # Else, this method has *NOT* yet instantiated a configuration with
             # these parameters. In this case, continue to do so and then cache
             # that configuration.
@@ -921,6 +942,13 @@ class BeartypeConf(object):
             # If one or more passed parameters are invalid, raise an exception.
             die_if_conf_kwargs_invalid(conf_kwargs)
             # Else, all passed parameters are valid.
+
+            # If a previously instantiated configuration compares equal to
+            # these valid parameters (despite one or more of these parameters
+            # being of differing types), return that configuration to preserve
+            # the guarantee that equal parameters yield the same configuration.
+            if conf_cached is not None:
+                return conf_cached
 
             # Sanify all passed parameters *AFTER* validating these parameters.
             sanify_conf_kwargs(conf_kwargs)
